@@ -46,6 +46,16 @@ Definition mulus (a b : Z) : out Z := chkus (a * b).
 
 (* ---- u16 (source ids): `(index + 1) as u16` is a wrapping cast, never a panic ---- *)
 Definition as_u16 (z : Z) : Z := z mod 65536.
+(* u16 width arithmetic of the formatter (codegen/mod.rs): saturating_add / checked_sub / u16::try_from(usize) never
+   panic; `a * b` on u16 panics on overflow in a build with overflow checks *)
+Definition u16_max : Z := 65535.
+Definition in_u16 (z : Z) : bool := (0 <=? z) && (z <=? u16_max).
+Definition sat_add16 (a b : Z) : Z := Z.min u16_max (a + b).
+Definition checked_sub16 (a b : Z) : option Z := if b <=? a then Some (a - b) else None.
+Definition try_from16 (w : Z) : option Z := if in_u16 w then Some w else None.
+Definition mul16 (a b : Z) : out Z := if in_u16 (a * b) then Ret (a * b) else Panic.
+(* i64::unsigned_abs : u64 -- total (|i64::MIN| = 2^63 fits u64) *)
+Definition unsigned_abs64 (a : Z) : Z := Z.abs a.
 
 (* ---- Option / Result / assert ---- *)
 Definition unwrap {A : Type} (o : option A) : out A := match o with Some a => Ret a | None => Panic end.
